@@ -6,6 +6,7 @@ checks + extraction equals the reported prefix."""
 import os
 import vlib
 import wirelib
+import srvlib
 from wirelib import WIRE
 
 BITS = [5, 6, 6, 7]
@@ -176,8 +177,111 @@ def oracle(case, out, m):
     return None
 
 
+# ---------------------------------------------------------------------------------------------------------------------
+# extraction stage: the data part as the real dispatcher hands it on.  tunnel_dns() of iodined.c computes the length of the
+# data part and every handler cuts the name there; the wire cases above call query_datalen()/unpack_data() themselves, so
+# this stage sends whole sessions (version, login, codec switch, single-fragment upstream packets) through the real
+# tunnel_dns (harness/h_srvhist.c) with the server configured with the clients' domain, the same domain in other case, and
+# a wildcard for its first label (first labels of 1..63 characters).  Oracle from the property text: the bytes written to
+# the tun device are exactly the payload the name carried.  Then model == implementation per event (Server.recv_datagram).
+
+def gen_extraction(seed, tier):
+    rng = vlib.rng_for(seed, 'c08-extract')
+    hs, meta = [], []
+    firsts = [1, 2, 3, 10, 63] if tier == 'quick' else [1, 2, 3, 4, 7, 10, 31, 62, 63]
+    alpha = b'abcdefghijklmnopqrstuvwxyz0123456789-'
+    for k in firsts:
+        for how in ('same', 'case', 'wild'):
+            for codec in range(4):
+                g = srvlib.HistGen(rng, adversarial=0.0)
+                lab = bytes(rng.choice(alpha[:26]) for _ in range(1)) + bytes(rng.choice(alpha) for _ in range(k - 1))
+                if lab.endswith(b'-'):
+                    lab = lab[:-1] + b'x'
+                g.domain = lab + rng.choice([b'.x.org', b'.Example.COM', b'.b'])
+                g.srv_domain = {'same': g.domain, 'case': g.domain.swapcase(), 'wild': b'*' + g.domain[len(lab):]}[how]
+                g.check_ip = 1
+                g.no_case_relay = True  # a relay that rewrites letter case destroys Base64/Base64u/Base128 payloads by design
+                g.qtype = rng.choice(g.QTYPES)
+                s = srvlib.Session(g, (4, bytes([192, 0, 2, 7]), 4000 + k))
+                g.version(s)
+                g.login(s)
+                if codec:
+                    s.rs = (s.rs + 1) & 0xffff
+                    cm = srvlib.b32c(s.rs >> 10) + srvlib.b32c(s.rs >> 5) + srvlib.b32c(s.rs)
+                    g.emit_query(s.addr, b's' + srvlib.b32c(s.uid) + srvlib.b32c([5, 6, 26, 7][codec]) + cm + b'.' + g.domain)
+                    s.codec = codec
+                s.up_seq = 1            # the server starts at upstream seqno 0: a first packet numbered 0 would be a re-send
+                want = {}
+                for _ in range(3):
+                    n = rng.choice([24, 25, 31, 40, 47])
+                    ip = bytearray(rng.randrange(256) for _ in range(n))
+                    ip[20:24] = bytes([8, 8, 8, 8])
+                    # one complete single-fragment upstream packet: userid, upstream seqno / fragment 0, nothing acked, last
+                    hdr = ('%x' % s.uid).encode() + srvlib.b32c((s.up_seq & 7) << 2) + srvlib.b32c(0) + srvlib.b32c(1)
+                    hdr += b'abcdefghijklmnopqrstuvwxyz0123456789'[s.cmc % 36:s.cmc % 36 + 1]
+                    s.cmc += 1
+                    g.emit_query(s.addr, srvlib.qname(hdr, srvlib.enc(s.codec, bytes([0x5A]) + bytes(ip)), g.domain))
+                    s.up_seq = (s.up_seq + 1) & 7
+                    want[len(g.events) - 1] = bytes(ip)
+                    g.now += 1
+                hs.append('H ' + g.cfg() + ' ; ' + ' ; '.join(g.events))
+                meta.append(dict(first=k, how=how, codec=codec, want=want, dom=g.domain, srv=g.srv_domain))
+    return hs, meta
+
+
+def extraction_stage(rep, ctx):
+    if 'srv' not in ctx.exe:
+        return
+    hs, meta = gen_extraction(rep.seed, rep.tier)
+    os.environ['VERIF_FULL'] = '1'
+    try:
+        rc, impl, err = vlib.parallel_run_cases(ctx.exe['srv'], hs, ctx.work, 'extract-impl')
+        ok, model, lg = vlib.build_model_driver('SRV')
+        mod = None
+        if ok:
+            rc2, mod, err2 = vlib.parallel_run_cases(model, hs, ctx.work, 'extract-model')
+        else:
+            ctx.broken.append(('extraction', 'server model driver does not build: ' + lg[-300:]))
+    finally:
+        os.environ.pop('VERIF_FULL', None)
+    if rc != 0:
+        ctx.broken.append(('impl-crash', 'server history harness exited with %d: %s' % (rc, err[-300:])))
+    npk = 0
+    for h, o, m in zip(hs, impl, meta):
+        segs = o.split(' ; ')
+        bad = None
+        for idx, ip in m['want'].items():
+            npk += 1
+            seg = segs[idx] if idx < len(segs) else ''
+            t = seg.split(' T', 1)
+            tun = t[1].split(' ') if len(t) == 2 else ['0']
+            if tun[0] != '1' or len(tun) < 2 or tun[1] != ip.hex():
+                bad = (idx, seg, ip)
+                break
+        if bad:
+            idx, seg, ip = bad
+            rep.add_violation('extraction:tunnel_dns', 'client domain %r, server configured with %r, codec %d: the upstream packet carried by '
+                              'event %d is not what the server writes to its tun device (the data part handed on by tunnel_dns is '
+                              'not the part before the matched domain)' % (m['dom'], m['srv'], m['codec'], idx),
+                              dict(kind='history', driver='srv', case=h, event=idx, observed=seg[:600], expected='T1 ' + ip.hex()))
+            break
+    if mod is not None:
+        d = vlib.first_diff(hs, impl, mod)
+        if d is not None:
+            ea, eb = impl[d].split(' ; '), mod[d].split(' ; ')
+            k = next((j for j, (x, y) in enumerate(zip(ea, eb)) if x != y), min(len(ea), len(eb)))
+            ctx.broken.append(('correspondence', 'extraction stage: server model and the real tunnel_dns disagree at event %d of %r: impl=%r model=%r' % (
+                k, hs[d][:2000], ea[k][:300] if k < len(ea) else '', eb[k][:300] if k < len(eb) else '')))
+    rep.cov['extraction'] = dict(histories=len(hs), upstream_packets=npk, wildcard_histories=sum(1 for m in meta if m['how'] == 'wild'),
+                                 first_label_lengths=sorted(set(m['first'] for m in meta)))
+    rep.cov['evaluations'] = rep.cov.get('evaluations', 0) + sum(h.count(' ; ') for h in hs)
+    rep.cov['rule'] += ('. Extraction stage: %d sessions (first label of the client domain 1..63 chars x server configured with the same '
+                        'domain / other case / a wildcard for that label x 4 codecs) through the real tunnel_dns: every single-fragment '
+                        'upstream packet must reach the tun device byte for byte; then model == implementation per event' % len(hs))
+
+
 def check(rep):
-    ctx = vlib.prepare(rep, harnesses={'wire': WIRE}, sanitize=(rep.tier == 'thorough'), model='WIRE')
+    ctx = vlib.prepare(rep, harnesses={'wire': WIRE, 'srv': srvlib.SRV}, sanitize=(rep.tier == 'thorough'), model='WIRE')
     cases, meta, stats = gen_cases(rep.seed, rep.tier)
     rep.cov['rule'] = ('corpus first; every hostname limit L in 100..255 x domain lengths 3..min(128,L-24) (thorough: all; quick: '
                        'boundaries + 6 random) x 4 codecs, one builder each (data chunk, ping/login/version/set-fragsize packet, '
@@ -216,6 +320,7 @@ def check(rep):
         if d is not None:
             ctx.broken.append(('correspondence', 'model and implementation disagree on case %r: impl=%r model=%r' % (
                 sub[d][:300], impl2[d][-400:], mod[d][-400:])))
+    extraction_stage(rep, ctx)
     if not rep.violations:
         ctx.report_broken()
     return rep
